@@ -580,15 +580,15 @@ pub trait ThreadExt: Send + Sync {
         E: Send + Sync,
     {
         let thread = self.thread();
-        Precompiled(deserializer)
-            .load_script(
-                &mut ModuleCompiler::new(&mut thread.get_database()),
-                thread,
-                name,
-                "",
-                (),
-            )
-            .await
+        // Evaluate with a database snapshot, then store once it is released: `set_global` needs
+        // exclusive access to the database and would otherwise wait for our own snapshot forever
+        let v = {
+            let mut db = thread.get_database();
+            let pre = Precompiled(deserializer);
+            pre.run_expr(&mut ModuleCompiler::new(&mut db), thread, name, "", ()).await?
+        };
+        thread.get_database_mut().set_global(name, v.typ, v.metadata, v.value.get_value());
+        Ok(())
     }
 
     /// Parses and typechecks `expr_str` followed by extracting metadata from the created
